@@ -14,7 +14,7 @@ from ..cfg import stmt_before
 COL = "typhon/collocations/collocator.py"
 COM = "typhon/collocations/common.py"
 UTL = "typhon/utils/common.py"
-EXPECT = {"C13.compact": 5, "C13.rows": 2, "C13.binner": 6, "C13.collapsers": 4, "C13.expand": 2, "C13.groups": 4, "C13.concat": 5, "C13.pure": 3}
+EXPECT = {"C13.compact": 5, "C13.rows": 2, "C13.binner": 6, "C13.collapsers": 4, "C13.expand": 2, "C13.groups": 5, "C13.concat": 5, "C13.pure": 3}
 
 
 def _assigns(flow):
@@ -250,7 +250,13 @@ def rule_binner(ctx):
     # the bin matrix is what the collapser functions receive; its allocation is found through aliases
     capp = None
     for st in flow.stmts:
-        if isinstance(st, ast.For) and norm(st.iter) == "collapser.items()" and isinstance(st.target, ast.Tuple) and len(st.target.elts) == 2:
+        if isinstance(st, ast.For) and isinstance(st.iter, ast.Call) and isinstance(st.iter.func, ast.Attribute) and st.iter.func.attr == "items" and not st.iter.args \
+                and (norm(st.iter.func.value) == "collapser" or (isinstance(st.iter.func.value, ast.Dict) and {"mean", "std", "number"} <= {
+                    const_value(k_) for k_ in st.iter.func.value.keys if isinstance(k_, ast.Constant)})
+                     or (isinstance(st.iter.func.value, ast.Name) and any(
+                         isinstance(d_, ast.Assign) and isinstance(d_.value, ast.Dict) and {"mean", "std", "number"} <= {const_value(k_) for k_ in d_.value.keys if isinstance(k_, ast.Constant)}
+                         for d_ in flow.defs(st.iter.func.value.id, st) if d_ != "param"))) \
+                and isinstance(st.target, ast.Tuple) and len(st.target.elts) == 2:
             fn = norm(st.target.elts[1])
             for c in calls_in(st, fn):
                 capp = c
@@ -337,9 +343,22 @@ def rule_collapsers(ctx):
         if isinstance(st, ast.Assign) and norm(st.targets[0]) == "collapser" and isinstance(st.value, ast.Dict) and len(st.value.keys) >= 3:
             tab = st
     if tab is None:
+        # the table under another name, or written where it is iterated: the one display that has the three default keys
+        class _T:
+            pass
+        for n_ in ast.walk(f.node):
+            if isinstance(n_, ast.Dict) and {"mean", "std", "number"} <= {const_value(k_) for k_ in n_.keys if isinstance(k_, ast.Constant)}:
+                tab = _T()
+                tab.value = n_
+                tab.lineno = n_.lineno
+                tab.col_offset = n_.col_offset
+                break
+    if tab is None:
         raise AnalysisError("collapse: default collapser table not found")
     entries = {}
-    override_last = tab.value.keys[-1] is None and norm(tab.value.values[-1]) == "collapser"
+    last_v = str(norm(tab.value.values[-1])).replace(" ", "")
+    override_last = tab.value.keys[-1] is None and last_v in ("collapser", "({}ifcollapserisNoneelsecollapser)", "{}ifcollapserisNoneelsecollapser",
+                                                                "(collapserifcollapserisnotNoneelse{})", "collapserifcollapserisnotNoneelse{}", "(collapseror{})", "collapseror{}")
     for k, v in zip(tab.value.keys, tab.value.values):
         if k is not None:
             entries[const_value(k)] = v
@@ -358,9 +377,9 @@ def rule_collapsers(ctx):
                 ok = body in ("np.count_nonzero(~np.isnan(%s),axis=%s)" % (m, a), "np.sum(~np.isnan(%s),axis=%s)" % (m, a),
                               "(~np.isnan(%s)).sum(axis=%s)" % (m, a))
         ctx.ob("collapse.collapser[%s]" % name, ok, fact,
-               {"mean": "np.nanmean(m, axis=a)", "std": "np.nanstd(m, axis=a)", "number": "count of non-NaN along axis a"}[name], node=tab, func=f)
+               {"mean": "np.nanmean(m, axis=a)", "std": "np.nanstd(m, axis=a)", "number": "count of non-NaN along axis a"}[name], node=tab.value, func=f)
     ctx.ob("collapse.collapser.override", override_last, "last entry of the table: %s" % ("**collapser" if override_last else norm(tab.value.values[-1])[:40]),
-           "user supplied entries are merged last (override the defaults)", node=tab, func=f)
+           "user supplied entries are merged last (override the defaults)", node=tab.value, func=f)
 
 
 def rule_expand(ctx):
@@ -433,28 +452,80 @@ def _ancestors_if(st):
 def rule_groups(ctx):
     ctx.rule("C13.groups", "T6", "pseudo groups: writer names members group + '/' + name, readers split at the first '/' and select by prefix")
     a = ctx.func(UTL, "add_xarray_groups")
-    comps = sorted([n for n in walk_no_nested(a.node) if isinstance(n, ast.DictComp)], key=lambda n: (n.lineno, n.col_offset))
-    vals = [norm(c.value).replace(" ", "") for c in comps]
-    okw = len(comps) == 2 and all(v in ("'/'.join([group_name,%s])" % norm(c.key), "group_name+'/'+%s" % norm(c.key), "f'{group_name}/{%s}'" % norm(c.key))
-                                  for v, c in zip(vals, comps))
-    its = [norm(c.generators[0].iter) for c in comps]
-    dims_cond = [norm(i) for c in comps for i in c.generators[0].ifs]
-    okw = okw and its == ["group.variables", "group.dims"] and dims_cond == ["dim not in group.coords"]
-    ctx.ob("add_xarray_groups.naming", okw, "renames: %s over %s (conditions %s)" % (vals, its, dims_cond),
+    from ..strmachine import Machine
+    # the rename maps, as comprehensions or as loops that fill a dictionary: (key, value, iterated attribute, conditions)
+    maps = []
+    for n in walk_no_nested(a.node):
+        if isinstance(n, ast.DictComp) and len(n.generators) == 1:
+            g_ = n.generators[0]
+            maps.append((n, g_.target, n.key, n.value, g_.iter, [norm(i_) for i_ in g_.ifs]))
+        elif isinstance(n, ast.For) and not n.orelse and n.body and isinstance(n.body[-1], ast.Assign) and isinstance(n.body[-1].targets[0], ast.Subscript) \
+                and all(isinstance(b_, ast.If) and not b_.orelse and len(b_.body) == 1 and isinstance(b_.body[0], ast.Continue) for b_ in n.body[:-1]) \
+                and not (isinstance(n.iter, ast.Call) and norm(n.iter.func).endswith(".items")):
+            st_ = n.body[-1]
+            maps.append((n, n.target, st_.targets[0].slice, st_.value, n.iter,
+                         [norm(ast.UnaryOp(op=ast.Not(), operand=b_.test)).replace("not (", "not(") for b_ in n.body[:-1]]))
+    maps.sort(key=lambda m_: (m_[0].lineno, m_[0].col_offset))
+    if len(maps) != 2:
+        raise AnalysisError("add_xarray_groups: expected the two rename maps (variables, dimensions), found %d" % len(maps))
+    facts, okw = [], True
+    for node_, tgt_, key_, val_, it_, conds_ in maps:
+        if not (isinstance(tgt_, ast.Name) and norm(key_) == tgt_.id):
+            raise AnalysisError("add_xarray_groups: rename map with key %s over %s not understood" % (norm(key_), norm(tgt_)))
+        made = Machine().ev(val_, {"group_name": "G", tgt_.id: "v"})
+        facts.append("%s -> %s over %s %s" % (tgt_.id, norm(val_), norm(it_), conds_ or ""))
+        okw = okw and made == "G/v"
+    its = [norm(m_[4]).split(".")[-1] for m_ in maps]
+    if its != ["variables", "dims"]:
+        raise AnalysisError("add_xarray_groups: the rename maps run over %s" % [norm(m_[4]) for m_ in maps])
+    dc = [c_.replace(" ", "") for c_ in maps[1][5]]
+    dimvar = maps[1][1].id
+    okd = len(dc) == 1 and dc[0].startswith(("%snotin" % dimvar, "not(%sin" % dimvar, "not%sin" % dimvar)) and dc[0].rstrip(")").endswith(".coords")
+    if not okd and dc:
+        raise AnalysisError("add_xarray_groups: condition %s of the dimension renames not understood" % maps[1][5])
+    ctx.ob("add_xarray_groups.naming", okw and okd and not maps[0][5], "renames: %s" % facts,
            "variables, and dimensions that are not coordinates, are renamed to group + '/' + name", node=a.node, func=a)
+    # the two readers, evaluated on a table of variable names (tyverif/strmachine.py: every statement is read or the evaluation refuses)
+    from ..strmachine import call, Stub
     g = ctx.func(UTL, "get_xarray_groups")
-    sc = [n for n in walk_no_nested(g.node) if isinstance(n, ast.SetComp)]
-    okr = len(sc) == 1 and norm(sc[0].elt).replace(" ", "") in ("var_name.split('/',1)[0]", "var_name.split('/')[0]", "var_name.partition('/')[0]") \
-        and [norm(i) for i in sc[0].generators[0].ifs] == ["'/' in var_name"] and norm(sc[0].generators[0].iter) == "dataset.variables"
-    ctx.ob("get_xarray_groups.split", okr, "group names = %s" % (norm(sc[0]) if sc else None),
-           "the part before the first '/' of every variable name containing '/'", node=g.node, func=g)
     h = ctx.func(UTL, "get_xarray_group")
-    lc = [n for n in walk_no_nested(h.node) if isinstance(n, ast.ListComp)]
-    pre = [st for st in h.body if isinstance(st, ast.If) and "endswith('/')" in norm(st.test)]
-    okp = len(lc) == 1 and [norm(i) for i in lc[0].generators[0].ifs] == ["var.startswith(group)"] and bool(pre) \
-        and norm(pre[0].body[0]).replace(" ", "") in ("group+='/'", "group=group+'/'")
-    ctx.ob("get_xarray_group.prefix", okp, "members = %s; prefix normalisation: %s" % (norm(lc[0]) if lc else None, norm(pre[0])[:50] if pre else None),
-           "members selected by the prefix group + '/' (so 'A' does not capture 'AB/x')", node=h.node, func=h)
+    TABLES = [("a/x", "a/y", "b/z", "t", "a/s/u", "c/", "ab/q"), ("t", "u"), (), ("g/h/i", "g/h/j", "gh/k", "g"), ("/w", "x/"), ("time", "A/time", "AB/time", "A/B/time")]
+    wrong = None
+    ncases = 0
+    for names in TABLES:
+        ds = Stub("dataset", {"variables": names}, getitem=lambda key: ("selected", tuple(key)))
+        got = call(g, ds, True)
+        want = {nm.split("/", 1)[0] for nm in names if "/" in nm}
+        ncases += 1
+        if not (isinstance(got, (set, frozenset)) and set(got) == want) and wrong is None:
+            wrong = {"variables": list(names), "get_xarray_groups(..., only_names=True)": repr(got), "expected": repr(want)}
+    ctx.ob("get_xarray_groups.split", wrong is None, "%d tables of variable names evaluated%s" % (ncases, "" if wrong is None else "; first difference: %s" % wrong),
+           "the part before the first '/' of every variable name containing '/'", node=g.node, func=g, witness=wrong, complete=True)
+    wrong = None
+    ncases = 0
+    for names in TABLES:
+        ds = Stub("dataset", {"variables": names}, getitem=lambda key: ("selected", tuple(key)))
+        for grp in ("a", "a/", "b", "ab", "a/s", "g", "g/h", "gh", "A", "A/B", "x", "zz", "t", "c"):
+            got = call(h, ds, grp)
+            pre = grp if grp.endswith("/") else grp + "/"
+            members = tuple(nm for nm in names if nm.startswith(pre))
+            want = ("selected", members) if members else ("raises", "KeyError")
+            ncases += 1
+            if got != want and wrong is None:
+                wrong = {"variables": list(names), "get_xarray_group(dataset, %r)" % grp: repr(got), "expected": repr(want)}
+    ctx.ob("get_xarray_group.prefix", wrong is None, "%d (table, group) cases evaluated%s" % (ncases, "" if wrong is None else "; first difference: %s" % wrong),
+           "members selected by the prefix group + '/' (so 'A' does not capture 'AB/x'), KeyError when there is none", node=h.node, func=h, witness=wrong, complete=True)
+    # the dictionary form hands every group name to get_xarray_group
+    wrong = None
+    for names in TABLES:
+        ds = Stub("dataset", {"variables": names}, getitem=lambda key: ("selected", tuple(key)))
+        got = call(g, ds, funcs={"get_xarray_group": h})
+        want = {grp: ("selected", tuple(nm for nm in names if nm.startswith(grp + "/"))) for grp in {nm.split("/", 1)[0] for nm in names if "/" in nm}}
+        if got != want and wrong is None:
+            wrong = {"variables": list(names), "get_xarray_groups(dataset)": repr(got)[:200], "expected": repr(want)[:200]}
+    ctx.ob("get_xarray_groups.members", wrong is None, "%d tables evaluated%s" % (len(TABLES), "" if wrong is None else "; first difference: %s" % wrong),
+           "{group: get_xarray_group(dataset, group)} for every group name", node=g.node, func=g, witness=wrong, complete=True)
+    ctx.models.append({"rule": "C13.groups", "cases": ncases + 2 * len(TABLES), "domain": "tables of variable names with nested, prefix-sharing and empty group names", "exhaustive": False})
     c = ctx.func(COM, "collapse")
     sp = [n for n in walk_no_nested(c.node) if isinstance(n, ast.Assign) and isinstance(n.targets[0], ast.Tuple) and "split" in norm(n.value)]
     oks = bool(sp) and norm(sp[0].value).replace(" ", "") == "var_name.split('/',1)"
